@@ -20,12 +20,27 @@ func calleeMayWrite(name string) bool {
 	return true
 }
 
+// rootsIn collects the memory roots a reference-valued term may denote (root positions only: lengths,
+// offsets and indices are values, not memory).
 func rootsIn(t *Term, out map[*Term]bool) {
-	Walk(t, map[*Term]bool{}, func(x *Term) {
-		if x.K == KSym && (x.Sym.Kind == SObj || x.Sym.Kind == SParam || x.Sym.Kind == SFree) {
-			out[x] = true
+	if t == nil {
+		return
+	}
+	switch {
+	case t.K == KSym:
+		if t.Sym.Kind == SObj || ((t.Sym.Kind == SParam || t.Sym.Kind == SFree) && (t.Sym.Ty == TRef || t.Sym.Ty == TOther)) {
+			out[t] = true
 		}
-	})
+	case t.Op == "slice" || t.Op == "addr" || t.Op == "at" || t.Op == "ld":
+		rootsIn(t.Args[0], out)
+	case t.Op == "ite":
+		rootsIn(t.Args[1], out)
+		rootsIn(t.Args[2], out)
+	case t.Op == "tuple" || t.Op == "closure" || t.Op == "fieldval" || t.Op == "indexval" || len(t.Op) > 5 && t.Op[:5] == "conv:":
+		for _, a := range t.Args {
+			rootsIn(a, out)
+		}
+	}
 }
 
 func (x *Ext) purify(sum *Summary) {
